@@ -146,7 +146,15 @@ def construct(kind, items):
         b = ForcePlatformsDataBlock(0.0, 100, N)
     for it in items or []:
         add(kind, b, it)
+    if kind == "data3d" and items and LINKS[0] % 2 == 0:
+        # every other 3D block built with markers also carries a link table (the skeleton): block-level data of that one block
+        from basictdf.tdfData3D import LinkType
+        b.links = np.array([(0, len(items) - 1)], dtype=LinkType.btype)
+    LINKS[0] += 1
     return b
+
+
+LINKS = [0]
 
 
 def add(kind, b, it):
@@ -227,6 +235,8 @@ def scripted_plans():
             # a list handed from one block to another (or to two blocks), then each block edited on its own
             [("construct", 2), ("construct", None), ("assign", 1, 0, "getter"), ("add", 0), ("add", 1), ("remove", 0, 0), ("add", 1)],
             [("construct", 1), ("construct", None), ("construct", 2), ("assign", 1, 2, "one-list"), ("add", 2), ("remove", 1, 0), ("add", 1), ("add", 0)],
+            # block-level data (the link table of a 3D block) belongs to the block that was built or decoded with it
+            [("construct", 2), ("construct", None), ("construct", 1), ("decode", 0), ("construct", None), ("add", 1), ("decode", 2), ("edit", 0, 0)],
             # an item taken OUT of a decoded block stays in use: it moves to another block, the same bytes are decoded again, the moved item is edited
             [("construct", 2), ("decode", 0), ("remove", 1, 0), ("move", 0), ("decode", 0), ("edit", 0, 2), ("decode", 0), ("edit", 3, 0), ("edit", 0, 2), ("edit", 5, 0)]]
 
@@ -464,6 +474,13 @@ def run(ctx):
                         break
                 if hit:
                     break
+            if prev is not None and op[0] in ("decode", "construct"):
+                # creating an instance — by a constructor call or by decoding — changes nothing about the instances that exist
+                for j, (before, after) in enumerate(zip(prev, snap)):
+                    if before != after:
+                        ctx.fail(f"{kind}: {'decoding a block' if op[0] == 'decode' else 'constructing a block'} changed instance {j}, which existed before "
+                                 f"({'items' if before[0] != after[0] else 'its encoding'} changed)", dict(rp, upto=i, frames=nframes), ident=f"{kind} creating an instance changes another")
+                        break
             if prev is not None and op[0] == "decode" and i >= 1 and ops[i - 1][0] == "decode":
                 # the two decodes of one encoding: same content, whatever was done to earlier decodes of the same bytes
                 if snap[-1][1] != snap[-2][1] or snap[-1][1] != srcs.get(i):
